@@ -93,17 +93,18 @@ def run_family(fam, prop, tier, seed, d=None, replay_ops=None):
     return res, d
 
 
-def judge(prop, fam, res, tier, seed, t0, level="model_checking"):
-    """Filter deviations relevant to `prop`, apply known findings, write evidence."""
-    rel_flags = fam["flags"][prop]
+def _collect(prop, fam, res, violations, known_hits, drift):
+    """Sort the recorded deviations of one family run into violations of `prop`, known findings and specification drift."""
+    rel_flags = fam["flags"].get(prop, set())
     known = [k for k in vlib.load_known().get("findings", []) if k["property"] == prop]
-    violations = []
-    known_hits = {}
     for shard, b in res.bad:
         tid, idx, op, flags = b[0], b[1], b[2], set(b[3]["set"] if isinstance(b[3], dict) else b[3])
         dev = set()
         if len(b) > 4:
             dev = set(b[4]["set"] if isinstance(b[4], dict) else b[4])
+        for f in flags:
+            if f.startswith("drift-"):
+                drift.setdefault((fam["name"], op, f), (shard, tid, idx))
         mine = flags & rel_flags
         if not mine:
             continue
@@ -117,7 +118,22 @@ def judge(prop, fam, res, tier, seed, t0, level="model_checking"):
         if hit:
             known_hits.setdefault(hit["id"], (hit, shard, tid, idx, op, sorted(mine)))
         else:
-            violations.append((shard, tid, idx, op, sorted(mine), sorted(dev)))
+            violations.append((shard, tid, idx, op, sorted(mine), sorted(dev), fam))
+
+
+def judge(prop, fam, res, tier, seed, t0, level="model_checking", extras=()):
+    """Filter deviations relevant to `prop`, apply known findings, write evidence.  `extras`: (family, result) pairs of
+    additional families run for the same property (their deviations count, their coverage is reported separately)."""
+    rel_flags = fam["flags"][prop]
+    violations = []
+    known_hits = {}
+    drift = {}
+    _collect(prop, fam, res, violations, known_hits, drift)
+    for (xfam, xres) in extras:
+        _collect(prop, xfam, xres, violations, known_hits, drift)
+    for (fname, op, f), (shard, tid, idx) in sorted(drift.items()):
+        log("SPEC-DRIFT: family=%s op=%s %s (trace %s event #%d): the code no longer behaves as the specification describes, in a "
+            "respect no listed property promises; not a violation" % (fname, op, f, tid, idx))
     for kid, (k, shard, tid, idx, op, mine) in sorted(known_hits.items()):
         log("KNOWN-FINDING: property=%s %s: %s" % (prop, k["deviation_flag"], k["what"]))
     rc = 0
@@ -126,7 +142,7 @@ def judge(prop, fam, res, tier, seed, t0, level="model_checking"):
         rc = 1
         seen = set()
         n = 0
-        for (shard, tid, idx, op, mine, dev) in violations:
+        for (shard, tid, idx, op, mine, dev, vfam) in violations:
             key = (op, tuple(mine))
             if key in seen or n >= 3:
                 continue
@@ -134,9 +150,9 @@ def judge(prop, fam, res, tier, seed, t0, level="model_checking"):
             n += 1
             events = vlib.read_trace(shard, tid)
             flagged = vlib.line_of(shard, idx)
-            payload = dict(property=prop, family=fam["name"], component=fam["component"], seed=seed, tier=tier,
+            payload = dict(property=prop, family=vfam["name"], component=vfam["component"], seed=seed, tier=tier,
                            flags=mine, deviation_flags=dev, flagged_event_index=idx, flagged_event=flagged,
-                           ops=fam["ops_of"](events), trace=events if len(json.dumps(events)) < 200000 else "omitted")
+                           ops=vfam["ops_of"](events), trace=events if len(json.dumps(events)) < 200000 else "omitted")
             p = vlib.save_replay(prop, n, payload)
             replay_path = replay_path or p
             log("VIOLATION property=%s replay=%s" % (prop, p))
@@ -155,6 +171,13 @@ def judge(prop, fam, res, tier, seed, t0, level="model_checking"):
                exhaustive=bool(fam.get("exhaustive", {}).get(tier, False)),
                deviating_events_all_properties=res.extra.get("nbad_total", 0),
                known_findings_hit=sorted(known_hits.keys()))
+    if drift:
+        cov["spec_drift"] = sorted("%s:%s:%s" % k for k in drift)
+    for (xfam, xres) in extras:
+        cov["additional_family_" + xfam["name"]] = dict(
+            rule=xfam["rule"], states=xres.states, transitions=xres.transitions, traces_validated_against_impl=xres.traces,
+            evaluations=xres.events, distinct_nontrivial=xfam["distinct"](xres.summary),
+            design_mutants_caught=xres.extra.get("design_mutants_caught", []), samples=(xres.samples or [])[:2])
     for k, v in res.extra.items():
         cov[k] = v
     for k in fam.get("summary_keys", []):
@@ -736,7 +759,39 @@ CURRENCY = dict(
                  "Coin.Float64 is judged for: no panic, no error, exact below 2^53, integer-valued"],
 )
 
+# ----------------------------------------------------------------------------- family: nodedb (C03 mechanism: layered node stores)
+
+def _nodedb_ops(events):
+    r = [e for e in events if e["op"] == "reset"][0]
+    t = r["topo"]
+    return dict(topo=dict(c1=t[0], p1=t[1], c2=t[2], p2=t[3]), prop1=r["prop1"], prop2=r["prop2"],
+                ops=[dict(op=e["op"], h=e.get("h", ""), ks=e.get("ks", []), h2=e.get("h2", "")) for e in events if e["op"] != "reset"])
+
+
+NODEDB = dict(
+    name="nodedb", component="nodedb", trace_module="NodeDBTrace", trace_cfg="NodeDBTrace.cfg",
+    design={"quick": [("NodeDB_MC", "NodeDB_MC.cfg")], "thorough": [("NodeDB_MC", "NodeDB_MC.cfg")]},
+    mutants={t: [("NodeDB_MC", "NodeDB_mut.cfg", "Isolation")] for t in ("quick", "thorough")},
+    gen={"quick": [dict(module="NodeDB_MC", cfg="NodeDB_gen.cfg", workers=1,
+                        extra=["-simulate", "num=2000", "-depth", "10", "-seed", "{seed}"])],
+         "thorough": [dict(module="NodeDB_MC", cfg="NodeDB_gen.cfg", workers=1, timeout=3000,
+                           extra=["-simulate", "num=60000", "-depth", "10", "-seed", "{seed}"])]},
+    exec_args=lambda tier, seed: (["-n", 1500] if tier == "quick" else ["-n", 60000]),
+    flags={"C03": {"layerisolation", "readthrough", "putvisible", "putalias", "res", "unknown-op"}},
+    distinct=lambda s: s.get("distinct_signatures", 0),
+    rule="node-store histories = behaviours of NodeDB.tla (TLC -simulate) and seeded random histories of get/put/delete/multi-*/"
+         "iterate/size/rebase/set-previous/MergeState on real MemoryNodeDB, PNodeDB(stub) and two stacked LevelNodeDB objects in three "
+         "topologies, both PropagateDeletes settings; after every operation the keys present in every plain store are read directly and "
+         "compared with the specification; put arguments are scribbled over after the call",
+    summary_keys=["panics", "go_histories", "tlc_histories"],
+    ops_of=lambda events: _nodedb_ops(events),
+    assumptions=["deviations in behaviour no listed property promises (delete bookkeeping, iteration multiplicities, size) are reported as "
+                 "SPEC-DRIFT lines, never as violations"],
+)
+
 FAMILIES = {"C01": MPT, "C02": MPT, "C14": MPT, "C06": SC, "C07": SC, "C08": C08, "C03": ROUNDS, "C04": ROUNDS, "C05": ROUNDS, "C17": SYNC, "C16": C16, "C09": WMPT, "C11": WMPT, "C13": WMPT, "C10": PROOF, "C12": WPATH, "C15": CODEC, "C20": LOGRING, "C19": MERKLE, "C18": CURRENCY}
+# additional families run for a property besides its main one
+EXTRA_FAMILIES = {"C03": [NODEDB]}
 PROPS = dict(FAMILIES)
 
 
@@ -747,10 +802,17 @@ def run_property(prop, tier, seed):
     fam = FAMILIES[prop]
     if "custom" in fam:
         return fam["custom"](prop, tier, seed)
+    extras, xdirs = [], []
+    for xfam in EXTRA_FAMILIES.get(prop, []):
+        xres, xd = run_family(xfam, prop, tier, seed, d=vlib.scratch("%s_%s_%s" % (prop, xfam["name"], tier)))
+        extras.append((xfam, xres))
+        xdirs.append(xd)
     res, d = run_family(fam, prop, tier, seed)
-    rc = judge(prop, fam, res, tier, seed, t0, level=fam.get("level", "model_checking"))
+    rc = judge(prop, fam, res, tier, seed, t0, level=fam.get("level", "model_checking"), extras=extras)
     if rc == 0:
         shutil.rmtree(d, ignore_errors=True)
+        for xd in xdirs:
+            shutil.rmtree(xd, ignore_errors=True)
     log("%s %s: exit %d (%.1fs)" % (prop, tier, rc, time.time() - t0))
     return rc
 
@@ -783,6 +845,9 @@ def replay(path):
     payload = json.load(open(path))
     prop = payload["property"]
     fam = FAMILIES[prop]
+    for xfam in EXTRA_FAMILIES.get(prop, []):
+        if payload.get("family") == xfam["name"]:
+            fam = xfam
     if prop == "C08":
         return _replay_c08(payload, path)
     if "custom" in fam or fam["name"] in ("proof", "codec", "merkle", "currency"):
